@@ -101,6 +101,12 @@ CHECKS["C19"] = dict(
    text="For 4 (quick) / 8 (thorough) connection shapes, EVERY cut index of the life script (creation, offer/answer, ICE, real DTLS handshake, SCTP set-up, data messages, RTCP timers; every await boundary is a cut) x closers {A, B, both at once, A twice concurrently, A after its peer vanished}: replay to the cut, start close(), continue under the default policy. Oracle: close() completes within 30 virtual seconds, second close() is a no-op, signaling/ICE/connection states closed, every channel closed, received tracks ended and their consumers released, no event after completion, no task pending and no decoder thread alive once both sides are closed, no task died with an exception.",
    note="aioice replaced by a fake connection (no consent-freshness timers); tracks produce no media in this harness; set iteration order over transports is address dependent, so a replay in another process may hit a neighbouring instant.",
    design="2/C19")
+CHECKS["C04"] = dict(
+   level="model_checking",
+   technique="bounded-exhaustive enumeration of fingerprint lists, SRTP profile preference matrices, role assignments and single-bit corruptions, each run through two real RTCDtlsTransport objects performing the real OpenSSL handshake on the virtual loop",
+   text="All fingerprint lists of length <= 2 (quick) / 3 (thorough) over a 24-entry alphabet derived from the peer's real certificate (three supported hashes x correct in three casings / wrong first or last digit / truncated, algorithm-name casing, unsupported algorithms) decide connected vs failed against the property's sentence, with a failed side handed nothing and refusing to send; every ordered SRTP profile list on each side x both role assignments connects iff the lists intersect and a battery of RTP/RTCP/data messages arrives intact both ways; every single-bit flip of every protected battery datagram is discarded without taking the transport down.",
+   note="Fault-free handshakes only (OpenSSL's DTLS timer reads the wall clock); ICE replaced by in-memory queues; payload values limited to the battery.",
+   design="2/C04")
 NOT_YET = {}
 
 def main():
